@@ -110,7 +110,12 @@ func runC13(cfg *config, res *monitor.Result) {
 				if fast {
 					mode = csproto.DecoderModeFast
 				}
-				dec, err := lazyproto.NewDecoder(def, lazyproto.WithMode(mode))
+				opts := []lazyproto.Option{lazyproto.WithMode(mode)}
+				maxBuf := []int{-1, 0, 1, 2}[(i/3)%4]
+				if maxBuf >= 0 {
+					opts = append(opts, lazyproto.WithMaxBufferSize(maxBuf))
+				}
+				dec, err := lazyproto.NewDecoder(def, opts...)
 				if err != nil {
 					break
 				}
@@ -167,10 +172,18 @@ func runC13(cfg *config, res *monitor.Result) {
 					_ = rs[1].Close()
 					check(3)
 					_ = rs[3].Close()
+					// everything is back in the pools: decoding the first input again must give its values only
+					dr, err = dec.Decode(ins[0])
+					if err != nil {
+						return
+					}
+					rs[0], held[0] = dr, nil
+					check(0)
+					_ = dr.Close()
 				}); pi != nil {
 					x.viol("Overlap", "panic", "interleaved use of several results of one Decoder panicked: "+pi.Value, nil, map[string]any{"frame": pi.Frame})
 				}
-				x.classes["overlapping-results/"+modeStr(fast)]++
+				x.classes[fmt.Sprintf("overlapping-results/%s/max%d", modeStr(fast), maxBuf)]++
 			}
 		}
 		// arbitrary bytes: only "no panic"
